@@ -120,6 +120,11 @@ def _debug_only_effects(ctx, crate, need_role):
                 eff = 'call of %s' % (cn.rsplit('::', 2)[-2] + '::' + cn.rsplit('::', 1)[-1])
             elif cn.startswith('core::sync::atomic::') and cn.rsplit('::', 1)[-1] in ('fetch_add', 'fetch_sub', 'store', 'swap', 'compare_exchange', 'fetch_update'):
                 eff = 'atomic update (%s)' % cn.rsplit('::', 1)[-1]
+            elif cn.startswith(('std::collections::', 'alloc::collections::', 'alloc::vec::Vec::', 'hashbrown::', 'dashmap::')) and cn.rsplit('::', 1)[-1] in (
+                    'insert', 'remove', 'clear', 'retain', 'push', 'push_back', 'push_front', 'pop', 'pop_back', 'pop_front', 'extend', 'drain', 'truncate', 'swap_remove',
+                    'remove_entry', 'entry', 'take', 'replace', 'append', 'split_off', 'or_insert', 'or_insert_with', 'or_default'):
+                # registry tables, scratch collections that are later written back, ...: any update of a collection
+                eff = 'collection update (%s)' % (cn.rsplit('::', 2)[-2] + '::' + cn.rsplit('::', 1)[-1])
             if eff:
                 out.append((body, bi, t, eff))
     return out, n
